@@ -280,10 +280,15 @@ func (f *family) doRollupWork(sourceFamily Family, rollup Rollup, sourceFiles []
 	var inputFiles []*version.FileMeta
 	var logs []version.Log
 	for fileNumber := range targetFiles {
-		if fm, ok := v.GetFile(0, fileNumber); ok {
-			inputFiles = append(inputFiles, fm)
-			logs = append(logs, version.CreateNewReferenceFile(sourceStore, sourceFamilyID, fileNumber))
+		fm, ok := v.GetFile(0, fileNumber)
+		if !ok {
+			// NOTE: file maybe was compacted(not in level 0) before rollup job runs, cannot skip it(its rollup mark
+			// will be deleted), deleteObsoleteFiles keeps the file on disk if it has rollup mark,
+			// so it can be read by file number.
+			fm = version.NewFileMeta(fileNumber, 0, 0, 0)
 		}
+		inputFiles = append(inputFiles, fm)
+		logs = append(logs, version.CreateNewReferenceFile(sourceStore, sourceFamilyID, fileNumber))
 	}
 	compaction := version.NewCompaction(f.ID(), 0, inputFiles, nil)
 	// add reference file edit logs
